@@ -198,6 +198,23 @@ func c02Year(w *W, y int) {
 			// a month can be labelled differently by the table of another year only inside the reform windows; report otherwise
 			w.Viol(fmt.Sprintf("C02:GetLunar-first-day:%s", m.key()), fmt.Sprintf("table %d says %s starts on %s but Solar.GetLunar there is %s", y, m.key(), r1Ymd(jdn), lunarYmd(l)), m.key())
 		}
+		// the same first day reached by stepping on the lunar side: from the day before (the last day of the previous
+		// month) one day forward, from mid-month back, and from the previous month's first day across its whole length
+		for _, back := range []int{1, -14, 29} {
+			if jdn-back < jdnFirst {
+				continue
+			}
+			by, bm, bd := r1FromJDN(jdn - back)
+			var l2 *calendar.Lunar
+			w.R.Transitions++
+			if msg, p := try(func() { l2 = calendar.NewSolarFromYmd(by, bm, bd).GetLunar().Next(back) }); p {
+				w.Viol(fmt.Sprintf("C02:Next-onto-first-day:panic:%s", m.key()), fmt.Sprintf("stepping %d days from %s onto the first day of %s panics: %s", back, r1Ymd(jdn-back), m.key(), msg), m.key())
+			} else if l2 == nil {
+				w.Viol(fmt.Sprintf("C02:Next-onto-first-day:nil:%s", m.key()), fmt.Sprintf("stepping %d days from %s returns nil", back, r1Ymd(jdn-back)), m.key())
+			} else if l2.GetYear() != l.GetYear() || l2.GetMonth() != l.GetMonth() || l2.GetDay() != l.GetDay() || l2.GetSolar().ToYmd() != r1Ymd(jdn) {
+				w.Viol(fmt.Sprintf("C02:Next-onto-first-day:%s", m.key()), fmt.Sprintf("table %d says %s starts on %s; the lunar date of %s stepped by %d days is %s on %s", y, m.key(), r1Ymd(jdn), r1Ymd(jdn-back), back, lunarYmd(l2), l2.GetSolar().ToYmd()), m.key())
+			}
+		}
 	}
 	if y < 1929 {
 		return
